@@ -488,3 +488,69 @@ theorem C10_bridge_flush_events_inside_loop : outsideLoop = [] := rfl
 example : run flushEvents ⟨0, none, false⟩ [.modify, .read [], .read [], .modify, .flush [(true, true)], .read []] = [(3, 3), (3, 3), (9, 9)] := by decide
 
 end PonyVerif.Props.C10
+
+/-! ## Part 5: EVERY query - keyword filters, generator / lambda queries, aggregates, exists - sees the session's own changes
+    (session model; the auto-flush in front of the statement is tied to the source by a generated bridge) -/
+
+namespace PonyVerif.Props.C10
+open PonyVerif.Model.SessStore PonyVerif.Gen.FlushQueryCache
+
+/-- A query the database evaluates: ANY function `q` of the database as the session's transaction sees it (rows and link rows) -
+    `E.select(**kw)`, `select(x for x in E if ..)`, `E.select(lambda ..)`, `exists`, `count` / `sum` / `min` / `max` / `avg`, `E.get(**kw)`,
+    a collection's `select()` ... differ only in `q`.  `Database._exec_sql`: `prepare_connection_for_query_execution` flushes the
+    session when it is modified, then the statement runs. -/
+def runQuery {α : Type} (q : Db → α) (w : World) : Except DbErr (World × α) :=
+  match flushIfModified w with
+  | .error e => .error e
+  | .ok (w', _) => .ok (w', q w'.txn)
+
+/-- `C10_query_sees_changes`: for EVERY query `q` whatsoever, in every state that satisfies the session invariant, the auto-flush
+    succeeds and the query returns `q` of the session's logical view - the database as the program has it, every unflushed
+    creation, assignment, deletion and link change included; the session keeps its invariant and its logical view, and what the
+    query did to the session is exactly an explicit `flush()`. -/
+theorem C10_query_sees_changes {α : Type} (q : Db → α) (w : World) (h : Inv w) :
+    ∃ w', runQuery q w = .ok (w', q (abs w)) ∧ Inv w' ∧ abs w' = abs w ∧ (step w .flush).1 = w' := by
+  obtain ⟨w', ws, e, hi, hcl, ha, _⟩ := flushIfModified_spec h
+  have ht : w'.txn = abs w := by rw [← ha]; exact (abs_eq_txn_of_clean hi.q.objs hcl).symm
+  refine ⟨w', ?_, hi, ha, ?_⟩
+  · simp [runQuery, e, ht]
+  · simp [step, e]
+
+/-- For ALL histories of a well-formed program (creates, assignments, link changes, deletes, loads, flushes, commits, rollbacks,
+    session ends, any number of sessions) and EVERY query: issued at any point, the query returns its value on the state the
+    program has at that point (the reference machine's working state), flushed or not. -/
+theorem C10_queries_see_own_changes {α : Type} (q : Db → α) (d : Db) (ops : List Op)
+    (hv : ValidFrom ⟨World.init d, Spec.init d⟩ ops) :
+    let r := runBoth ⟨World.init d, Spec.init d⟩ ops
+    ∃ w', runQuery q r.w = .ok (w', q r.s.working) ∧ Sim ⟨w', r.s⟩ := by
+  have hs := run_sim ops _ (sim_init d) hv
+  obtain ⟨w', e, hi, ha, hf⟩ := C10_query_sees_changes q _ hs.inv
+  refine ⟨w', by rw [e, hs.view], hi, ?_, by rw [ha]; exact hs.view⟩
+  -- the committed state is untouched by a flush
+  obtain ⟨w'', ws, e', _, _, _, hc⟩ := flushIfModified_spec hs.inv
+  have : w' = w'' := by
+    have := hf; simp [step, e'] at this; exact this.symm
+  show w'.committed = _
+  rw [this, hc]; exact hs.committed
+
+/-- the auto-flush the model assumes is what the source does NOW (regenerated on every run, harness/gen_c10.py): in
+    `Database._exec_sql` the connection is prepared before the statement is executed (also before the retry after a reconnect), and
+    `prepare_connection_for_query_execution` calls `cache.flush()` under exactly the test `not cache.noflush_counter and cache.modified`
+    (inside a `flush_disabled()` block - hooks, the internals of collection calls - queries deliberately do not flush). -/
+theorem C10_bridge_query_flushes_first :
+    queryPath.head? = some QueryEv.prepare ∧ QueryEv.execute ∈ queryPath ∧
+    prepareFlushTests = ["not cache.noflush_counter and cache.modified"] := by decide
+
+/-- non-trivial instances: a count over a predicate and a sum, with an unflushed create, assignment and delete -/
+def countWhere (keys : List Key) (p : (Nat → Cell) → Bool) (d : Db) : Nat :=
+  (keys.filter fun k => match d.rows k with | some r => p r | none => false).length
+
+example :
+    let ops : List Op := [.create ⟨0, 1⟩ [.int 5], .create ⟨0, 2⟩ [.int 1], .create ⟨0, 3⟩ [.int 9], .endOk, .load ⟨0, 1⟩, .load ⟨0, 2⟩,
+                          .set ⟨0, 2⟩ 0 (.int 7), .delete ⟨0, 1⟩, .create ⟨0, 4⟩ [.int 8]]
+    let r := runBoth ⟨World.init Db.empty, Spec.init Db.empty⟩ ops
+    let big := countWhere [⟨0, 1⟩, ⟨0, 2⟩, ⟨0, 3⟩, ⟨0, 4⟩] (fun row => match row 0 with | .int v => decide (v > 6) | _ => false)
+    ValidFrom ⟨World.init Db.empty, Spec.init Db.empty⟩ ops ∧ r.w.cache.modified = true ∧
+    (runQuery big r.w).toOption.map (·.2) = some 3 ∧ big r.w.txn = 1 := by decide
+
+end PonyVerif.Props.C10
